@@ -179,6 +179,11 @@ impl Scanner {
         // Check for a byte literal
         if self.ch == '\'' && identifier == "b" {
             self.read_char();
+            // "b'" at the very end of the input: no byte follows
+            if self.position >= self.input.len() {
+                let tok: String = self.input[position..].iter().collect();
+                return self.make_token(TokenType::Illegal, &tok);
+            }
             let the_byte = self.input[self.position];
             // Consume ending quote (')
             self.read_char();
@@ -309,6 +314,10 @@ impl Scanner {
         let position = self.position;
         // move past the opening quote (') character
         self.read_char();
+        // a quote at the very end of the input: no character follows
+        if self.position >= self.input.len() {
+            return self.make_token(TokenType::Illegal, "'");
+        }
         let the_char = self.input[self.position].to_string();
         self.read_char();
         if self.ch == '\'' {
